@@ -197,10 +197,11 @@ theorem run_holdLeBal : ∀ (ops : List Op) (s : State), (∀ op ∈ ops, WF op)
     exact run_holdLeBal rest (step s op) (fun o ho => hwf o (List.mem_cons_of_mem _ ho))
       (step_holdLeBal (hwf op (by simp)) h)
 
-/-- … and so at **every point** of the history (after any prefix), not just at the end. -/
-theorem holdLeBal_at_every_point (ops₁ ops₂ : List Op) (s : State) (hwf : ∀ op ∈ ops₁ ++ ops₂, WF op)
-    (h : HoldLeBal s) : HoldLeBal (run s ops₁) :=
-  run_holdLeBal ops₁ s (fun o ho => hwf o (List.mem_append_left _ ho)) h
+/-- … and so at **every point** of every history — after each prefix `ops.take n` — not just at
+the end: no intermediate state has a balance below the hold. -/
+theorem holdLeBal_at_every_point (ops : List Op) (s : State) (hwf : ∀ op ∈ ops, WF op)
+    (h : HoldLeBal s) : ∀ n, HoldLeBal (run s (ops.take n)) :=
+  fun n => run_holdLeBal (ops.take n) s (fun o ho => hwf o (List.mem_of_mem_take ho)) h
 
 /-- the empty chain state satisfies the invariant, so the theorem is not vacuous -/
 example : HoldLeBal {} := by intro a d; simp [State.hold, State.bal]
@@ -1398,5 +1399,690 @@ example :
     (∃ s₁ e, feeTx s "G" "FEE" [("stake", 20)] [] [.send {} "P" "G" [("apple", 6)] (some "G")] = .msgsFailed s₁ e ∧
       s₁.bal "G" "stake" = 80 ∧ s₁.bal "P" "apple" = 5) := by
   refine ⟨⟨_, rfl, by decide, by decide, by decide⟩, ⟨_, rfl⟩, ⟨_, _, rfl, by decide, by decide⟩⟩
+
+/-! ## 10. Balances are never negative; the client-visible spendable formula along every history -/
+
+/-- no balance is negative -/
+def BalNonneg (s : State) : Prop := ∀ a d, 0 ≤ s.bal a d
+
+private theorem debited_balNonneg {L : Denom → Int} {a : Addr} {s s' : State} (h : Debited L a s s')
+    (hL : ∀ d, 0 ≤ L d) (hinv : BalNonneg s) : BalNonneg s' := by
+  intro a' d'
+  by_cases ha : a' = a
+  · subst ha
+    rcases h.own d' with he | hl
+    · rw [he]; exact hinv _ _
+    · exact Int.le_trans (hL d') hl
+  · rw [h.other a' d' ha]; exact hinv _ _
+
+private theorem credited_balNonneg {s s' : State} (h : Credited s s') (hinv : BalNonneg s) : BalNonneg s' :=
+  fun a d => Int.le_trans (hinv a d) (h.ge a d)
+
+private theorem balNonneg_of_ledger {s s' : State} (hl : s'.ledger = s.ledger) (h : BalNonneg s) :
+    BalNonneg s' := by
+  intro a d; unfold State.bal; rw [hl]; exact h a d
+
+private theorem subUnlockedCoins_balNonneg {s s' : State} {c : Ctx} {a : Addr} {amt : Coins}
+    (hinv : BalNonneg s) (h : subUnlockedCoins s c a amt = .ok s') : BalNonneg s' :=
+  debited_balNonneg (subUnlockedCoins_debited h).1 (locked_nonneg s c a) hinv
+
+private theorem subAll_balNonneg (c : Ctx) :
+    ∀ (xs : List (Addr × Coins)) (s s' : State), BalNonneg s → subAll s c xs = .ok s' → BalNonneg s'
+  | [], s, s', g, h => by simp [subAll] at h; subst h; exact g
+  | (a, amt) :: rest, s, s', g, h => by
+    simp only [subAll] at h
+    split at h
+    · cases h
+    · rename_i s₁ h₁
+      exact subAll_balNonneg c rest s₁ s' (subUnlockedCoins_balNonneg g h₁) h
+
+/-- Every primitive — in any context, with any amounts — keeps all balances non-negative: a debit
+is refused unless `balance − locked − amount ≥ 0`, and the locked amount is never negative. -/
+theorem apply_balNonneg {s s' : State} {op : Op} (hinv : BalNonneg s) (h : apply s op = .ok s') :
+    BalNonneg s' := by
+  cases op with
+  | send c src dst amt r =>
+    simp only [apply, sendCoins] at h
+    split at h
+    · cases h
+    · rename_i s₁ h₁
+      split at h
+      · cases h
+      · split at h
+        · cases h
+        · rename_i s₂ h₂
+          simp at h; subst h
+          exact credited_balNonneg (ensureAccount_credited s₂ _)
+            (credited_balNonneg (addCoins_credited h₂) (subUnlockedCoins_balNonneg hinv h₁))
+  | inputOutput c ins outs rs =>
+    simp only [apply, inputOutputCoins] at h
+    split_ifs at h
+    split at h
+    · cases h
+    · split at h
+      · cases h
+      · rename_i s₁ h₁
+        split at h
+        · cases h
+        · exact credited_balNonneg (addAll_credited _ _ _ h) (subAll_balNonneg c _ _ _ hinv h₁)
+  | delegate c del mod amt r =>
+    simp only [apply, delegateCoins] at h
+    split_ifs at h
+    split at h
+    · cases h
+    · rename_i s₁ h₁
+      have i₁ := debited_balNonneg (delegateLoop_debited _ _ _ _ _ h₁)
+        (locked_nonneg s { c with vestBypass := true } del) hinv
+      split at h
+      · cases h
+      · split_ifs at h
+        obtain ⟨t1, _, _, _⟩ := trackDelegation_ledger del amt s₁
+        exact credited_balNonneg (addCoins_credited h) (balNonneg_of_ledger t1 i₁)
+  | undelegate c mod del amt =>
+    simp only [apply, undelegateCoins] at h
+    split_ifs at h
+    split at h
+    · cases h
+    · rename_i s₁ h₁
+      split_ifs at h
+      obtain ⟨t1, _, _, _⟩ := trackUndelegation_ledger del amt s₁
+      exact credited_balNonneg (addCoins_credited h)
+        (balNonneg_of_ledger t1 (subUnlockedCoins_balNonneg hinv h₁))
+  | mint mod amt => exact credited_balNonneg (addCoins_credited h) hinv
+  | burn c mod amt => exact subUnlockedCoins_balNonneg hinv h
+  | addHold c a funds => exact balNonneg_of_ledger (hold_ops_keep_balances (by simp [isHoldOp]) h) hinv
+  | releaseHold a funds => exact balNonneg_of_ledger (hold_ops_keep_balances (by simp [isHoldOp]) h) hinv
+  | setTime t => simp [apply] at h; subst h; exact balNonneg_of_ledger rfl hinv
+
+/-- **Balances are never negative, along every history** (no hypothesis on the operations). -/
+theorem run_balNonneg : ∀ (ops : List Op) (s : State), BalNonneg s → BalNonneg (run s ops)
+  | [], _, h => h
+  | op :: rest, s, h => by
+    simp only [run, List.foldl_cons]
+    refine run_balNonneg rest (step s op) ?_
+    unfold step
+    split
+    · rename_i s' hs; exact apply_balNonneg h hs
+    · exact h
+
+/-- **The spendable balance reported to clients, along every history.**  After any history from a
+state without negative balances or holds (the empty chain state, any genesis), the gRPC
+`SpendableBalances` / `SpendableBalanceByDenom` answer (`SpendableCoin`), `SpendableCoins` denom by
+denom, and `SpendableCoins` with the SDK's exact `SafeSub` clipping all equal
+`max 0 (balance − hold − unvested)`. -/
+theorem run_spendableCoin_formula (ops : List Op) (s : State) (h0 : HoldNonneg s) (b0 : BalNonneg s)
+    (a : Addr) (d : Denom) :
+    let s' := run s ops
+    spendableCoin s' {} a d = max 0 (s'.bal a d - s'.hold a d - unvested s' a d) ∧
+    spendableCoins s' {} a d = max 0 (s'.bal a d - s'.hold a d - unvested s' a d) ∧
+    ∀ ds, d ∈ ds → spendableCoinsOver s' {} a ds d = max 0 (s'.bal a d - s'.hold a d - unvested s' a d) := by
+  have hh := run_holdNonneg ops s h0 a d
+  have hb := run_balNonneg ops s b0 a d
+  exact ⟨spendableCoin_formula _ a d hh hb, spendableCoins_formula _ a d hh,
+    fun ds hd => spendableCoinsOver_formula _ a ds d hh (Or.inl hd)⟩
+
+example : HoldNonneg {} ∧ BalNonneg {} := ⟨fun a d => by simp [State.hold], fun a d => by simp [State.bal]⟩
+
+/-- Where funds are on hold, a `Good` state (what `HoldAccountBalancesInvariant` checks) needs no
+clipping: the reported spendable balance is exactly `balance − hold − unvested`. -/
+theorem spendable_unclipped_of_good {s : State} (g : Good s) (a : Addr) (d : Denom) (hpos : 0 < s.hold a d) :
+    spendableCoin s {} a d = s.bal a d - s.hold a d - unvested s a d ∧
+    spendableCoins s {} a d = s.bal a d - s.hold a d - unvested s a d := by
+  have h1 := g.heldUnlocked a d hpos
+  have hu := unvested_nonneg s a d
+  have hh : 0 ≤ s.hold a d := by omega
+  have hb : 0 ≤ s.bal a d := by omega
+  rw [spendableCoin_formula s a d hh hb, spendableCoins_formula s a d hh]
+  omega
+
+/-- … along every production history (production contexts, forward-moving block time): for every
+account and denom with funds on hold the reported spendable balance is `balance − hold − unvested`,
+unclipped. -/
+theorem run_spendable_unclipped (ops : List Op) (s : State) (hops : ∀ op ∈ ops, PlainCtx op ∧ WF op)
+    (htm : TimeMono s ops) (g : Good s) (a : Addr) (d : Denom) (hpos : 0 < (run s ops).hold a d) :
+    spendableCoin (run s ops) {} a d =
+      (run s ops).bal a d - (run s ops).hold a d - unvested (run s ops) a d :=
+  (spendable_unclipped_of_good (run_good ops s hops htm g) a d hpos).1
+
+/-- The positive-hold hypothesis is needed: a vesting account whose unvested amount exceeds its
+balance (60 of the 100 original-vesting coins were lost, e.g. slashed) and which has no hold is
+`Good`-compatible, and its spendable balance is the clipped `0`, not `40 − 0 − 100`. -/
+example :
+    let s : State := { ledger := [⟨"V", "stake", 40⟩],
+                       kinds := [("V", .vesting (.delayed [("stake", 100)] 1000))], time := 10 }
+    HoldLeBal s ∧ HeldUnlocked s ∧ DfNonneg s ∧ spendableCoin s {} "V" "stake" = 0 ∧
+      s.bal "V" "stake" - s.hold "V" "stake" - unvested s "V" "stake" = -60 := by
+  refine ⟨?_, ?_, ?_, by decide, by decide⟩
+  · intro a d
+    simp only [State.hold, State.bal, Ledger.bal]
+    split <;> simp
+  · intro a d hp
+    simp [State.hold] at hp
+  · intro a d; simp [State.dfOf]
+
+/-! ## 11. The exact boundary and the exact debit of every bank primitive, in any context -/
+
+private theorem subLoop_bal (L : Denom → Int) (a : Addr) :
+    ∀ (amt : Coins) (s s' : State), subLoop s L a amt = .ok s' →
+      ∀ a' d, s'.bal a' d = s.bal a' d - (if a = a' then Coins.amountOf amt d else 0)
+  | [], s, s', h, a', d => by simp [subLoop] at h; subst h; simp
+  | (d₀, x) :: rest, s, s', h, a', d => by
+    simp only [subLoop] at h
+    split_ifs at h
+    rw [subLoop_bal L a rest _ _ h a' d, debit1_bal, Coins.amountOf_cons]
+    by_cases ha : a = a' <;> by_cases hd : d₀ = d <;> simp [ha, hd]
+    omega
+
+private theorem subUnlockedCoins_bal {s s' : State} {c : Ctx} {a : Addr} {amt : Coins}
+    (h : subUnlockedCoins s c a amt = .ok s') (a' : Addr) (d : Denom) :
+    s'.bal a' d = s.bal a' d - (if a = a' then Coins.amountOf amt d else 0) := by
+  unfold subUnlockedCoins at h
+  split_ifs at h
+  exact subLoop_bal _ a amt s s' h a' d
+
+/-- A bank send that the restrictions let through, **in any context** (marker / quarantine /
+sanction / vesting / hold bypass flags arbitrary), succeeds iff every coin is at most
+`balance − LockedCoins` of the sender in that context. -/
+theorem sendCoins_ok_iff_locked (s : State) (c : Ctx) (src dst dst' : Addr) (amt : Coins)
+    (hv : isValid amt = true) (hnd : (Coins.denoms amt).Nodup) :
+    (∃ s', sendCoins s c src dst amt (some dst') = .ok s') ↔
+      ∀ p ∈ amt, p.2 ≤ s.bal src p.1 - lockedCoins s c src p.1 := by
+  rw [← subUnlockedCoins_ok_iff s c src amt hv hnd]
+  constructor
+  · rintro ⟨s', h⟩
+    unfold sendCoins at h
+    split at h
+    · cases h
+    · rename_i s₁ h₁; exact ⟨s₁, h₁⟩
+  · rintro ⟨s₁, h₁⟩
+    refine ⟨ensureAccount { s₁ with ledger := s₁.ledger.credit dst' amt } dst', ?_⟩
+    simp [sendCoins, h₁, addCoins, hv]
+
+/-- … so in every production context (neither the hold bypass nor the vesting bypass; the
+marker / quarantine / sanction bypass flags arbitrary — marker withdrawals and forced transfers,
+exchange transfers, quarantine releases, gov deposits, fee payments all run in such a context) a
+send succeeds **iff** every coin is at most `balance − hold − unvested`. -/
+theorem sendCoins_ok_iff_ctx (s : State) (c : Ctx) (src dst dst' : Addr) (amt : Coins)
+    (hh : c.holdBypass = false) (hvb : c.vestBypass = false)
+    (hv : isValid amt = true) (hnd : (Coins.denoms amt).Nodup) :
+    (∃ s', sendCoins s c src dst amt (some dst') = .ok s') ↔
+      ∀ p ∈ amt, p.2 ≤ s.bal src p.1 - pos (s.hold src p.1) - pos (unvested s src p.1) := by
+  rw [sendCoins_ok_iff_locked s c src dst dst' amt hv hnd]
+  have hl : ∀ d, lockedCoins s c src d = pos (unvested s src d) + pos (s.hold src d) := by
+    intro d; simp [lockedCoins, unvestedGetter, holdGetter, hh, hvb]
+  constructor
+  · intro h p hp; have := h p hp; rw [hl] at this; omega
+  · intro h p hp; have := h p hp; rw [hl]; omega
+
+example : ({ markerBypass := true, quarantineBypass := true } : Ctx).holdBypass = false ∧
+    ({ markerBypass := true, quarantineBypass := true } : Ctx).vestBypass = false := ⟨rfl, rfl⟩
+
+/-- `UndelegateCoins` (existing accounts) succeeds **iff** every coin is at most
+`balance − LockedCoins` of the module account it is taken from. -/
+theorem undelegateCoins_ok_iff (s : State) (c : Ctx) (mod del : Addr) (amt : Coins)
+    (hmod : s.accountExists mod = true) (hdel : s.accountExists del = true)
+    (hv : isValid amt = true) (hnd : (Coins.denoms amt).Nodup) :
+    (∃ s', undelegateCoins s c mod del amt = .ok s') ↔
+      ∀ p ∈ amt, p.2 ≤ s.bal mod p.1 - lockedCoins s c mod p.1 := by
+  rw [← subUnlockedCoins_ok_iff s c mod amt hv hnd]
+  unfold undelegateCoins
+  simp only [hmod, hv, Bool.not_true, Bool.false_eq_true, if_false]
+  constructor
+  · rintro ⟨s', h⟩
+    split at h
+    · cases h
+    · rename_i s₁ h₁; exact ⟨s₁, h₁⟩
+  · rintro ⟨s₁, h₁⟩
+    have hk : s₁.kinds = s.kinds := (subUnlockedCoins_debited h₁).1.kinds
+    have hex : s₁.accountExists del = true := by unfold State.accountExists; rw [hk]; exact hdel
+    rw [h₁]
+    simp only [hex, Bool.not_true, Bool.false_eq_true, if_false]
+    simp [addCoins, hv]
+
+example :
+    let s : State := { ledger := [⟨"POOL", "stake", 100⟩], holds := [⟨"POOL", "stake", 30⟩],
+                       kinds := [("POOL", .module), ("D", .base)] }
+    s.accountExists "POOL" = true ∧ s.accountExists "D" = true ∧
+    (∃ s', undelegateCoins s {} "POOL" "D" [("stake", 70)] = .ok s') ∧
+    isErrFunds (undelegateCoins s {} "POOL" "D" [("stake", 71)]) = true := by
+  refine ⟨by decide, by decide, ⟨_, rfl⟩, by decide⟩
+
+/-- `BurnCoins` succeeds **iff** every coin is at most `balance − LockedCoins` of the module. -/
+theorem burnCoins_ok_iff (s : State) (c : Ctx) (mod : Addr) (amt : Coins)
+    (hv : isValid amt = true) (hnd : (Coins.denoms amt).Nodup) :
+    (∃ s', burnCoins s c mod amt = .ok s') ↔ ∀ p ∈ amt, p.2 ≤ s.bal mod p.1 - lockedCoins s c mod p.1 :=
+  subUnlockedCoins_ok_iff s c mod amt hv hnd
+
+example : isValid [("stake", 5), ("zcoin", 1)] = true ∧ (Coins.denoms [("stake", (5 : Int)), ("zcoin", 1)]).Nodup := by
+  decide
+
+/-- debits on other accounts do not change what an account may spend -/
+private theorem subUnlockedCoins_other {s s' : State} {c : Ctx} {a : Addr} {amt : Coins}
+    (h : subUnlockedCoins s c a amt = .ok s') (b : Addr) (hb : b ≠ a) (d : Denom) :
+    s'.bal b d - lockedCoins s' c b d = s.bal b d - lockedCoins s c b d := by
+  have hd := (subUnlockedCoins_debited h).1
+  have hu : unvested s' b d = unvested s b d := hd.frame.unvested hd.dv b d
+  have hh : s'.hold b d = s.hold b d := hd.frame.hold b d
+  rw [hd.other b d hb]
+  unfold lockedCoins unvestedGetter holdGetter
+  rw [hu, hh]
+
+private theorem subAll_ok_iff (c : Ctx) : ∀ (xs : List (Addr × Coins)) (s : State),
+    (xs.map (·.1)).Nodup → (∀ p ∈ xs, isValid p.2 = true ∧ (Coins.denoms p.2).Nodup) →
+    ((∃ s', subAll s c xs = .ok s') ↔
+      ∀ p ∈ xs, ∀ q ∈ p.2, q.2 ≤ s.bal p.1 q.1 - lockedCoins s c p.1 q.1)
+  | [], s, _, _ => by simp [subAll]
+  | (a, amt) :: rest, s, hnd, hval => by
+    have hnd' : a ∉ rest.map (·.1) ∧ (rest.map (·.1)).Nodup := by simpa using hnd
+    have ⟨hv, hdn⟩ := hval (a, amt) (by simp)
+    have hval' : ∀ p ∈ rest, isValid p.2 = true ∧ (Coins.denoms p.2).Nodup :=
+      fun p hp => hval p (List.mem_cons_of_mem _ hp)
+    have key := subUnlockedCoins_ok_iff s c a amt hv hdn
+    simp only [subAll]
+    constructor
+    · rintro ⟨s', h⟩
+      split at h
+      · cases h
+      · rename_i s₁ h₁
+        have ih := (subAll_ok_iff c rest s₁ hnd'.2 hval').mp ⟨s', h⟩
+        intro p hp q hq
+        rcases List.mem_cons.mp hp with rfl | hp'
+        · exact key.mp ⟨s₁, h₁⟩ q hq
+        · have hne : p.1 ≠ a := fun e => hnd'.1 (e ▸ List.mem_map.mpr ⟨p, hp', rfl⟩)
+          have := ih p hp' q hq
+          rw [subUnlockedCoins_other h₁ p.1 hne q.1] at this
+          exact this
+    · intro h
+      obtain ⟨s₁, h₁⟩ := key.mpr (h (a, amt) (by simp))
+      rw [h₁]
+      apply (subAll_ok_iff c rest s₁ hnd'.2 hval').mpr
+      intro p hp q hq
+      have hne : p.1 ≠ a := fun e => hnd'.1 (e ▸ List.mem_map.mpr ⟨p, hp, rfl⟩)
+      rw [subUnlockedCoins_other h₁ p.1 hne q.1]
+      exact h p (List.mem_cons_of_mem _ hp) q hq
+
+private theorem addAll_ok : ∀ (xs : List (Addr × Coins)) (s : State),
+    (∀ p ∈ xs, isValid p.2 = true) → ∃ s', addAll s xs = .ok s'
+  | [], s, _ => ⟨s, rfl⟩
+  | (a, amt) :: rest, s, h => by
+    have hv := h (a, amt) (by simp)
+    simp only [addAll, addCoins, hv, Bool.not_true, Bool.false_eq_true, if_false]
+    exact addAll_ok rest _ (fun p hp => h p (List.mem_cons_of_mem _ hp))
+
+private theorem groupStep_nodup (acc : List (Addr × Coins)) (p : Addr × Coins)
+    (h : (acc.map (·.1)).Nodup) :
+    ((if acc.any (fun q => q.1 = p.1) then acc.map (fun q => if q.1 = p.1 then (q.1, q.2 ++ p.2) else q)
+      else acc ++ [p]).map (·.1)).Nodup := by
+  split
+  · have : (acc.map (fun q => if q.1 = p.1 then (q.1, q.2 ++ p.2) else q)).map (·.1) = acc.map (·.1) := by
+      rw [List.map_map]
+      apply List.map_congr_left
+      intro q _
+      simp only [Function.comp]
+      split <;> rfl
+    rw [this]; exact h
+  · rename_i hany
+    rw [List.map_append, List.nodup_append]
+    refine ⟨h, by simp, ?_⟩
+    intro a ha b hb
+    simp only [List.map_cons, List.map_nil, List.mem_singleton] at hb
+    subst hb
+    intro e; subst e
+    apply hany
+    obtain ⟨q, hq, hq1⟩ := List.mem_map.mp ha
+    exact List.any_eq_true.mpr ⟨q, hq, by simpa using hq1⟩
+
+private theorem groupFold_nodup : ∀ (xs acc : List (Addr × Coins)), (acc.map (·.1)).Nodup →
+    ((xs.foldl (fun acc (p : Addr × Coins) =>
+      if acc.any (fun q => q.1 = p.1) then acc.map (fun q => if q.1 = p.1 then (q.1, q.2 ++ p.2) else q)
+      else acc ++ [p]) acc).map (·.1)).Nodup
+  | [], acc, h => h
+  | p :: rest, acc, h => by
+    simp only [List.foldl_cons]
+    exact groupFold_nodup rest _ (groupStep_nodup acc p h)
+
+/-- the grouped inputs / outputs of `InputOutputCoinsProv` have distinct addresses -/
+theorem normGroups_nodup (xs : List (Addr × Coins)) : ((normGroups xs).map (·.1)).Nodup := by
+  unfold normGroups
+  rw [List.map_map]
+  have : ((fun p : Addr × Coins => p.1) ∘ fun p : Addr × Coins => (p.1, Coins.canon p.2)) = (·.1) := rfl
+  rw [this]
+  exact groupFold_nodup xs [] (by simp)
+
+/- Full statement (not proved): for `ins`/`outs` that pass the shape checks and
+`ValidateInputsOutputs`, and restriction outcomes that all allow,
+  `(∃ s', inputOutputCoins s c ins outs rs = .ok s') ↔
+     ∀ p ∈ normGroups ins, ∀ q ∈ p.2, q.2 ≤ s.bal p.1 q.1 − lockedCoins s c p.1 q.1`.
+Missing: that the grouped, canonicalised inputs / outputs (`normGroups` = first-seen grouping by
+address — distinct addresses, `normGroups_nodup` — then `Coins.canon` = sort + merge) are valid
+`sdk.Coins` with distinct denoms.  These two facts are the hypotheses `hgi`, `hgo` below; they are
+properties of `Coins.canon` on validated inputs (the order of denom strings), not of the bank
+keeper. -/
+/-- `InputOutputCoinsProv` (1→n and n→1) whose shape, validation and restrictions pass succeeds
+**iff** every coin of every (grouped) input is at most `balance − LockedCoins` of that input's
+account — in any context; no input can reach into its locked (held / unvested) funds, and nothing
+else can make the multi-send fail. -/
+theorem inputOutputCoins_ok_iff_partial (s : State) (c : Ctx) (ins outs : List (Addr × Coins))
+    (rs : List (Option Addr)) (resolved : List (Addr × Coins))
+    (hi : ins.isEmpty = false) (ho : outs.isEmpty = false)
+    (hm : (decide (1 < ins.length) && decide (1 < outs.length)) = false)
+    (hval : validateInputsOutputs ins outs = .ok ())
+    (hres : applyRestrictions (transfersOf ins outs) rs = .ok resolved)
+    (hgi : ∀ p ∈ normGroups ins, isValid p.2 = true ∧ (Coins.denoms p.2).Nodup)
+    (hgo : ∀ p ∈ normGroups resolved, isValid p.2 = true) :
+    (∃ s', inputOutputCoins s c ins outs rs = .ok s') ↔
+      ∀ p ∈ normGroups ins, ∀ q ∈ p.2, q.2 ≤ s.bal p.1 q.1 - lockedCoins s c p.1 q.1 := by
+  rw [← subAll_ok_iff c (normGroups ins) s (normGroups_nodup ins) hgi]
+  unfold inputOutputCoins
+  simp only [hi, ho, hm, Bool.false_eq_true, if_false, hval, hres]
+  constructor
+  · rintro ⟨s', h⟩
+    split at h
+    · cases h
+    · rename_i s₁ h₁; exact ⟨s₁, h₁⟩
+  · rintro ⟨s₁, h₁⟩
+    rw [h₁]
+    exact addAll_ok _ s₁ hgo
+
+/-- the hypotheses hold for a concrete 2→1 transfer (what the exchange's `DoTransfer` builds), and
+the boundary is exact: B has 50 of which 20 are on hold and may put in 30, not 31 -/
+example :
+    let s : State := { ledger := [⟨"A", "stake", 10⟩, ⟨"B", "stake", 50⟩], holds := [⟨"B", "stake", 20⟩] }
+    let ins : List (Addr × Coins) := [("A", [("stake", 10)]), ("B", [("stake", 30)])]
+    let outs : List (Addr × Coins) := [("T", [("stake", 40)])]
+    ins.isEmpty = false ∧ outs.isEmpty = false ∧
+    (decide (1 < ins.length) && decide (1 < outs.length)) = false ∧
+    validateInputsOutputs ins outs = .ok () ∧
+    applyRestrictions (transfersOf ins outs) [] = .ok [("T", [("stake", 10)]), ("T", [("stake", 30)])] ∧
+    (∀ p ∈ normGroups ins, isValid p.2 = true ∧ (Coins.denoms p.2).Nodup) ∧
+    (∀ p ∈ normGroups [(("T" : Addr), ([("stake", 10)] : Coins)), ("T", [("stake", 30)])], isValid p.2 = true) ∧
+    (∃ s', inputOutputCoins s {} ins outs [] = .ok s') ∧
+    isErrFunds (inputOutputCoins s {} [("A", [("stake", 10)]), ("B", [("stake", 31)])]
+      [("T", [("stake", 41)])] []) = true := by
+  refine ⟨rfl, rfl, rfl, by decide, by decide, by decide, by decide, ⟨_, rfl⟩, by decide⟩
+
+/-- **A successful send moves exactly `amt`**: the sender is debited `amt`, the resolved recipient
+credited `amt`, no other balance changes (and no hold: `bank_ops_keep_holds`). -/
+theorem sendCoins_exact {s s' : State} {c : Ctx} {src dst dst' : Addr} {amt : Coins}
+    (h : sendCoins s c src dst amt (some dst') = .ok s') (a : Addr) (d : Denom) :
+    s'.bal a d = s.bal a d - (if src = a then Coins.amountOf amt d else 0)
+      + (if dst' = a then Coins.amountOf amt d else 0) := by
+  unfold sendCoins at h
+  split at h
+  · cases h
+  · rename_i s₁ h₁
+    simp only at h
+    split at h
+    · cases h
+    · rename_i s₂ h₂
+      simp at h; subst h
+      rw [ensureAccount_bal, addCoins_bal h₂, subUnlockedCoins_bal h₁]
+
+/-- a successful burn removes exactly `amt` from the module account -/
+theorem burnCoins_exact {s s' : State} {c : Ctx} {mod : Addr} {amt : Coins}
+    (h : burnCoins s c mod amt = .ok s') (a : Addr) (d : Denom) :
+    s'.bal a d = s.bal a d - (if mod = a then Coins.amountOf amt d else 0) :=
+  subUnlockedCoins_bal h a d
+
+private theorem delegateLoop_other (L : Denom → Int) (a : Addr) (amt : Coins) (s s' : State)
+    (h : delegateLoop s L a amt = .ok s') (a' : Addr) (d : Denom) :
+    s'.bal a' d = s.bal a' d - (if a = a' then Coins.amountOf amt d else 0) := by
+  by_cases ha : a = a'
+  · subst ha; simp [delegateLoop_bal L a amt s s' h d]
+  · simp only [ha, if_false, Int.sub_zero]
+    exact (delegateLoop_debited L a amt s s' h).other a' d (fun e => ha e.symm)
+
+/-- a successful delegation moves exactly `amt` from the delegator to the pool -/
+theorem delegateCoins_exact {s s' : State} {c : Ctx} {del mod : Addr} {amt : Coins} {r : Option Addr}
+    (h : delegateCoins s c del mod amt r = .ok s') (a : Addr) (d : Denom) :
+    s'.bal a d = s.bal a d - (if del = a then Coins.amountOf amt d else 0)
+      + (if mod = a then Coins.amountOf amt d else 0) := by
+  unfold delegateCoins at h
+  split_ifs at h
+  split at h
+  · cases h
+  · rename_i s₁ h₁
+    split at h
+    · cases h
+    · split_ifs at h
+      obtain ⟨t1, _, _, _⟩ := trackDelegation_ledger del amt s₁
+      rw [addCoins_bal h]
+      have : (trackDelegation s₁ del amt).bal a d = s₁.bal a d := by unfold State.bal; rw [t1]
+      rw [this, delegateLoop_other _ del amt s s₁ h₁ a d]
+
+/-- a successful undelegation moves exactly `amt` from the pool to the delegator -/
+theorem undelegateCoins_exact {s s' : State} {c : Ctx} {mod del : Addr} {amt : Coins}
+    (h : undelegateCoins s c mod del amt = .ok s') (a : Addr) (d : Denom) :
+    s'.bal a d = s.bal a d - (if mod = a then Coins.amountOf amt d else 0)
+      + (if del = a then Coins.amountOf amt d else 0) := by
+  unfold undelegateCoins at h
+  split_ifs at h
+  split at h
+  · cases h
+  · rename_i s₁ h₁
+    split_ifs at h
+    obtain ⟨t1, _, _, _⟩ := trackUndelegation_ledger del amt s₁
+    rw [addCoins_bal h]
+    have : (trackUndelegation s₁ del amt).bal a d = s₁.bal a d := by unfold State.bal; rw [t1]
+    rw [this, subUnlockedCoins_bal h₁]
+
+/-! ## 12. The other modules' routes: marker withdraw / forced transfer / burn, gov deposit,
+market withdraw, quarantine accept, module burn
+
+Each lowering (`PvModel/Lock.lean`, read off the Go function; the driver runs the harness's
+`mwithdraw` / `mtransfer` / `deposit` / `mktwithdraw` / `qaccept` / `burn` lines through them) is a
+message of production-context primitives that releases nothing, so — whatever the amounts,
+accounts, account kinds and restriction outcomes — **no account's hold shrinks and every hold is
+still covered by the balance afterwards**, in particular for the debited marker / market /
+funds-holder / depositor account. -/
+
+/-- a message of well-formed primitives without any release -/
+private theorem route_safe (ops : List Op) (s : State) (hwf : ∀ op ∈ ops, WF op)
+    (hnr : ∀ a, NoReleaseFor a ops) (hinv : HoldLeBal s) :
+    HoldLeBal (stepMsg s ops) ∧
+    ∀ s', applyAll s ops = .ok s' → ∀ a d, s.hold a d ≤ s'.hold a d ∧ s'.hold a d ≤ s'.bal a d :=
+  ⟨message_holdLeBal ops s hwf hinv,
+    fun s' h a d => message_unreleased_holds_stay_covered ops s s' a hwf hinv (hnr a) h d⟩
+
+/-- a bank send / burn in a context without the hold and vesting bypass -/
+private theorem send_ok (c : Ctx) (hh : c.holdBypass = false) (hv : c.vestBypass = false)
+    (src dst : Addr) (amt : Coins) (r : Option Addr) :
+    (PlainCtx (.send c src dst amt r) ∧ WF (.send c src dst amt r) ∧ NoSetTime (.send c src dst amt r)) ∧
+      ∀ a cs, Op.send c src dst amt r ≠ .releaseHold a cs := by
+  simp [PlainCtx, WF, NoSetTime, Op.ctx, hh, hv]
+
+private theorem burn_ok (c : Ctx) (hh : c.holdBypass = false) (hv : c.vestBypass = false)
+    (mod : Addr) (amt : Coins) :
+    (PlainCtx (.burn c mod amt) ∧ WF (.burn c mod amt) ∧ NoSetTime (.burn c mod amt)) ∧
+      ∀ a cs, Op.burn c mod amt ≠ .releaseHold a cs := by
+  simp [PlainCtx, WF, NoSetTime, Op.ctx, hh, hv]
+
+/-- the predicate all route lowerings satisfy -/
+def RouteOk (ops : List Op) : Prop :=
+  (∀ op ∈ ops, PlainCtx op ∧ WF op ∧ NoSetTime op) ∧ ∀ a, NoReleaseFor a ops
+
+private theorem routeOk_of (ops : List Op)
+    (h : ∀ op ∈ ops, (PlainCtx op ∧ WF op ∧ NoSetTime op) ∧ ∀ a cs, op ≠ .releaseHold a cs) : RouteOk ops :=
+  ⟨fun op hop => (h op hop).1, fun a op hop cs => (h op hop).2 a cs⟩
+
+theorem markerWithdrawOps_ok (marker recipient : Addr) (coins : Coins) (r : Option Addr) :
+    RouteOk (markerWithdrawOps marker recipient coins r) := by
+  apply routeOk_of; intro op hop
+  simp only [markerWithdrawOps, List.mem_singleton] at hop; subst hop
+  exact send_ok _ rfl rfl _ _ _ _
+
+theorem markerTransferOps_ok (src dst : Addr) (amt : Coins) (r : Option Addr) :
+    RouteOk (markerTransferOps src dst amt r) := by
+  apply routeOk_of; intro op hop
+  simp only [markerTransferOps, List.mem_singleton] at hop; subst hop
+  exact send_ok _ rfl rfl _ _ _ _
+
+theorem markerBurnOps_ok (marker pool : Addr) (offset : Coins) (r : Option Addr) :
+    RouteOk (markerBurnOps marker pool offset r) := by
+  apply routeOk_of; intro op hop
+  simp only [markerBurnOps, List.mem_cons, List.mem_nil_iff, or_false] at hop
+  rcases hop with rfl | rfl
+  · exact send_ok _ rfl rfl _ _ _ _
+  · exact burn_ok _ rfl rfl _ _
+
+theorem moduleBurnOps_ok (mod : Addr) (amt : Coins) : RouteOk (moduleBurnOps mod amt) := by
+  apply routeOk_of; intro op hop
+  simp only [moduleBurnOps, List.mem_singleton] at hop; subst hop
+  exact burn_ok _ rfl rfl _ _
+
+theorem govDepositOps_ok (depositor gov : Addr) (amt : Coins) (r : Option Addr) :
+    RouteOk (govDepositOps depositor gov amt r) := by
+  apply routeOk_of; intro op hop
+  simp only [govDepositOps, List.mem_singleton] at hop; subst hop
+  exact send_ok _ rfl rfl _ _ _ _
+
+theorem marketWithdrawOps_ok (market dst : Addr) (amt : Coins) (toIsAdmin : Bool) (r : Option Addr) :
+    RouteOk (marketWithdrawOps market dst amt toIsAdmin r) := by
+  apply routeOk_of; intro op hop
+  simp only [marketWithdrawOps, List.mem_singleton] at hop; subst hop
+  exact send_ok _ rfl rfl _ _ _ _
+
+theorem quarantineAcceptOps_ok (holder dst : Addr) : ∀ (records : List Coins) (rs : List (Option Addr)),
+    RouteOk (quarantineAcceptOps holder dst records rs)
+  | [], _ => ⟨fun op h => by simp [quarantineAcceptOps] at h, fun a op h => by simp [quarantineAcceptOps] at h⟩
+  | cs :: rest, rs => by
+    have ih := quarantineAcceptOps_ok holder dst rest (rs.drop 1)
+    have h0 := send_ok { quarantineBypass := true } rfl rfl holder dst cs (rs.headD (some dst))
+    constructor
+    · intro op hop
+      simp only [quarantineAcceptOps, List.mem_cons] at hop
+      rcases hop with rfl | hop
+      · exact h0.1
+      · exact ih.1 op hop
+    · intro a op hop cs'
+      simp only [quarantineAcceptOps, List.mem_cons] at hop
+      rcases hop with rfl | hop
+      · exact h0.2 a cs'
+      · exact ih.2 a op hop cs'
+
+/-- what every route lowering guarantees, from `RouteOk` -/
+private theorem routeOk_safe {ops : List Op} (hok : RouteOk ops) (s : State) (hinv : HoldLeBal s) :
+    HoldLeBal (stepMsg s ops) ∧
+    ∀ s', applyAll s ops = .ok s' → ∀ a d, s.hold a d ≤ s'.hold a d ∧ s'.hold a d ≤ s'.bal a d :=
+  route_safe ops s (fun o ho => (hok.1 o ho).2.1) hok.2 hinv
+
+/-- **Marker withdrawal** (`MsgWithdraw` → `WithdrawCoins`): accepted or not, `hold ≤ balance`
+afterwards; when accepted, every account — the marker account that pays in particular — keeps
+every hold, covered by its balance. -/
+theorem markerWithdraw_safe (s : State) (marker recipient : Addr) (coins : Coins) (r : Option Addr)
+    (hinv : HoldLeBal s) :
+    HoldLeBal (stepMsg s (markerWithdrawOps marker recipient coins r)) ∧
+    ∀ s', applyAll s (markerWithdrawOps marker recipient coins r) = .ok s' →
+      ∀ a d, s.hold a d ≤ s'.hold a d ∧ s'.hold a d ≤ s'.bal a d :=
+  routeOk_safe (markerWithdrawOps_ok marker recipient coins r) s hinv
+
+/-- **Marker transfer by an admin, forced transfer included** (`MsgTransfer` → `TransferCoin`): the
+account the admin takes from keeps every hold, covered by its balance. -/
+theorem markerTransfer_safe (s : State) (src dst : Addr) (amt : Coins) (r : Option Addr) (hinv : HoldLeBal s) :
+    HoldLeBal (stepMsg s (markerTransferOps src dst amt r)) ∧
+    ∀ s', applyAll s (markerTransferOps src dst amt r) = .ok s' →
+      ∀ a d, s.hold a d ≤ s'.hold a d ∧ s'.hold a d ≤ s'.bal a d :=
+  routeOk_safe (markerTransferOps_ok src dst amt r) s hinv
+
+/-- **Marker burn** (`MsgBurn` → `BurnCoin` → `DecreaseSupply` → `AdjustCirculation`: marker
+account → coin pool → `BurnCoins`). -/
+theorem markerBurn_safe (s : State) (marker pool : Addr) (offset : Coins) (r : Option Addr) (hinv : HoldLeBal s) :
+    HoldLeBal (stepMsg s (markerBurnOps marker pool offset r)) ∧
+    ∀ s', applyAll s (markerBurnOps marker pool offset r) = .ok s' →
+      ∀ a d, s.hold a d ≤ s'.hold a d ∧ s'.hold a d ≤ s'.bal a d :=
+  routeOk_safe (markerBurnOps_ok marker pool offset r) s hinv
+
+/-- **A module's direct `BurnCoins`**. -/
+theorem moduleBurn_safe (s : State) (mod : Addr) (amt : Coins) (hinv : HoldLeBal s) :
+    HoldLeBal (stepMsg s (moduleBurnOps mod amt)) ∧
+    ∀ s', applyAll s (moduleBurnOps mod amt) = .ok s' →
+      ∀ a d, s.hold a d ≤ s'.hold a d ∧ s'.hold a d ≤ s'.bal a d :=
+  routeOk_safe (moduleBurnOps_ok mod amt) s hinv
+
+/-- **Governance deposit** (`MsgDeposit` / initial deposit → `AddDeposit`). -/
+theorem govDeposit_safe (s : State) (depositor gov : Addr) (amt : Coins) (r : Option Addr) (hinv : HoldLeBal s) :
+    HoldLeBal (stepMsg s (govDepositOps depositor gov amt r)) ∧
+    ∀ s', applyAll s (govDepositOps depositor gov amt r) = .ok s' →
+      ∀ a d, s.hold a d ≤ s'.hold a d ∧ s'.hold a d ≤ s'.bal a d :=
+  routeOk_safe (govDepositOps_ok depositor gov amt r) s hinv
+
+/-- **Market withdrawal** (`MsgMarketWithdraw` → `WithdrawMarketFunds`), to the admin
+(quarantine bypassed) or to anyone else. -/
+theorem marketWithdraw_safe (s : State) (market dst : Addr) (amt : Coins) (toIsAdmin : Bool) (r : Option Addr)
+    (hinv : HoldLeBal s) :
+    HoldLeBal (stepMsg s (marketWithdrawOps market dst amt toIsAdmin r)) ∧
+    ∀ s', applyAll s (marketWithdrawOps market dst amt toIsAdmin r) = .ok s' →
+      ∀ a d, s.hold a d ≤ s'.hold a d ∧ s'.hold a d ≤ s'.bal a d :=
+  routeOk_safe (marketWithdrawOps_ok market dst amt toIsAdmin r) s hinv
+
+/-- **Accepting quarantined funds** (`MsgAccept` → `AcceptQuarantinedFunds`), any number of
+records: the funds holder keeps every hold, covered by its balance. -/
+theorem quarantineAccept_safe (s : State) (holder dst : Addr) (records : List Coins) (rs : List (Option Addr))
+    (hinv : HoldLeBal s) :
+    HoldLeBal (stepMsg s (quarantineAcceptOps holder dst records rs)) ∧
+    ∀ s', applyAll s (quarantineAcceptOps holder dst records rs) = .ok s' →
+      ∀ a d, s.hold a d ≤ s'.hold a d ∧ s'.hold a d ≤ s'.bal a d :=
+  routeOk_safe (quarantineAcceptOps_ok holder dst records rs) s hinv
+
+/-- Every one of these routes also keeps what `HoldAccountBalancesInvariant` checks
+(`hold + unvested ≤ balance`, §6), accepted or not. -/
+theorem routes_good (s : State) (g : Good s) (a b : Addr) (amt : Coins) (r : Option Addr)
+    (adm : Bool) (records : List Coins) (rs : List (Option Addr)) :
+    Good (stepMsg s (markerWithdrawOps a b amt r)) ∧ Good (stepMsg s (markerTransferOps a b amt r)) ∧
+    Good (stepMsg s (markerBurnOps a b amt r)) ∧ Good (stepMsg s (moduleBurnOps a amt)) ∧
+    Good (stepMsg s (govDepositOps a b amt r)) ∧ Good (stepMsg s (marketWithdrawOps a b amt adm r)) ∧
+    Good (stepMsg s (quarantineAcceptOps a b records rs)) :=
+  ⟨message_good _ s (markerWithdrawOps_ok a b amt r).1 g, message_good _ s (markerTransferOps_ok a b amt r).1 g,
+    message_good _ s (markerBurnOps_ok a b amt r).1 g, message_good _ s (moduleBurnOps_ok a amt).1 g,
+    message_good _ s (govDepositOps_ok a b amt r).1 g, message_good _ s (marketWithdrawOps_ok a b amt adm r).1 g,
+    message_good _ s (quarantineAcceptOps_ok a b records rs).1 g⟩
+
+/-- **The boundary of the single-transfer routes**: a marker withdrawal, a (forced) marker transfer,
+a gov deposit and a market withdrawal that the restrictions let through are accepted **iff** every
+coin is at most `balance − hold − unvested` of the account that pays — the marker bypass, the
+quarantine bypass and the transfer agents buy nothing against a hold. -/
+theorem routes_accepted_iff (s : State) (src dst dst' : Addr) (amt : Coins) (adm : Bool)
+    (hv : isValid amt = true) (hnd : (Coins.denoms amt).Nodup) :
+    let bound := ∀ p ∈ amt, p.2 ≤ s.bal src p.1 - pos (s.hold src p.1) - pos (unvested s src p.1)
+    ((∃ s', applyAll s (markerWithdrawOps src dst amt (some dst')) = .ok s') ↔ bound) ∧
+    ((∃ s', applyAll s (markerTransferOps src dst amt (some dst')) = .ok s') ↔ bound) ∧
+    ((∃ s', applyAll s (govDepositOps src dst amt (some dst')) = .ok s') ↔ bound) ∧
+    ((∃ s', applyAll s (marketWithdrawOps src dst amt adm (some dst')) = .ok s') ↔ bound) := by
+  have one : ∀ c : Ctx, c.holdBypass = false → c.vestBypass = false →
+      ((∃ s', applyAll s [.send c src dst amt (some dst')] = .ok s') ↔
+        ∀ p ∈ amt, p.2 ≤ s.bal src p.1 - pos (s.hold src p.1) - pos (unvested s src p.1)) := by
+    intro c hh hvb
+    rw [← sendCoins_ok_iff_ctx s c src dst dst' amt hh hvb hv hnd]
+    simp only [applyAll, apply]
+    constructor
+    · rintro ⟨s', h⟩
+      split at h
+      · cases h
+      · rename_i s₁ h₁; exact ⟨s₁, h₁⟩
+    · rintro ⟨s₁, h₁⟩
+      exact ⟨s₁, by rw [h₁]⟩
+  exact ⟨one _ rfl rfl, one _ rfl rfl, one _ rfl rfl, one _ rfl rfl⟩
+
+/-- non-vacuity, and the boundary on a marker account: MK holds 100 of which 70 are on hold (a
+commitment); the withdraw-permitted admin can take out 30, not 31; burning via the coin pool stops
+at the same point; the quarantine funds holder with 50 of which 45 on hold releases a record of 5
+but not a second one of 1. -/
+example :
+    let s : State := { ledger := [⟨"MK", "coin", 100⟩, ⟨"QH", "coin", 50⟩],
+                       holds := [⟨"MK", "coin", 70⟩, ⟨"QH", "coin", 45⟩],
+                       kinds := [("MK", .marker), ("QH", .base), ("CP", .module)] }
+    HoldLeBal s ∧
+    (∃ s', applyAll s (markerWithdrawOps "MK" "T" [("coin", 30)] (some "T")) = .ok s' ∧
+      s'.bal "MK" "coin" = 70 ∧ s'.hold "MK" "coin" = 70) ∧
+    stepMsg s (markerWithdrawOps "MK" "T" [("coin", 31)] (some "T")) = s ∧
+    (∃ s', applyAll s (markerBurnOps "MK" "CP" [("coin", 30)] (some "CP")) = .ok s' ∧
+      s'.bal "MK" "coin" = 70 ∧ s'.bal "CP" "coin" = 0) ∧
+    stepMsg s (markerBurnOps "MK" "CP" [("coin", 31)] (some "CP")) = s ∧
+    (∃ s', applyAll s (quarantineAcceptOps "QH" "T" [[("coin", 5)]] []) = .ok s') ∧
+    stepMsg s (quarantineAcceptOps "QH" "T" [[("coin", 5)], [("coin", 1)]] []) = s := by
+  refine ⟨?_, ⟨_, rfl, by decide, by decide⟩, rfl, ⟨_, rfl, by decide, by decide⟩, rfl, ⟨_, rfl⟩, rfl⟩
+  intro a d
+  simp only [State.hold, State.bal, Ledger.bal]
+  split <;> split <;> omega
 
 end PvProofs.C03
